@@ -40,7 +40,9 @@ RULE = (
     "symbols of cse, anonymous Dummy, odd but legal names) inside one expression (special shapes, linear / product / "
     "mixed combinations, random trees with their symbols replaced), also as a tuple of its symbols and itself; one "
     "symbol in twelve of every other class takes such a form; non-trivial: >= 2 symbols that print differently and "
-    "share their .name. distinct = distinct canonical case strings"
+    "share their .name. Class manyargs: one Add / Mul node with 17 .. 129 direct operands (counts at, just below and "
+    "just above powers of two), each operand its own symbol with a small coefficient, also as a sum of products and a "
+    "product of sums. distinct = distinct canonical case strings"
 )
 ASSUMPTIONS = [
     "symbols are identified by their PRINTED name (str): the neutral tree and every dialect key symbols by that "
@@ -124,7 +126,7 @@ def _pname(sym):
 
 def classes(tier):
     return ["special", "random", "unevaluated", "numeric", "unsupported", "tuple", "keys", "history", "integers",
-            "symbolforms"]
+            "symbolforms", "manyargs"]
 
 
 # ============================================================================ reference interpreter
@@ -1813,6 +1815,29 @@ def _run_case(ctx):
             _judge_back(ctx, v, back, f"history {kind} (after earlier translations)", bad,
                         check="history-value" if before else "roundtrip-value")
             before = True
+        return
+
+    if cls == "manyargs":
+        # sums and products of MANY operands (17 .. 130 direct arguments of one Add / Mul node; every count between two
+        # powers of two behaves alike for a pairwise reduction, the powers of two themselves do not): each operand a
+        # different symbol with a small coefficient, so that a dropped or duplicated operand changes the value
+        n = rng.choice([17, 18, 19, 23, 24, 31, 32, 33, 40, 47, 48, 63, 64, 65, 96, 100, 127, 128, 129])
+        kind = rng.choice(["add", "add", "mul", "add-of-mul", "mul-of-add"])
+        syms = [S.Symbol(f"{rng.choice(['v', 'w', 'q'])}{i}") for i in range(n)]
+        coef = [rng.choice([1, 1, 2, 3, -1, -2, 5, S.Rational(1, 2), 0.25]) for _ in range(n)]
+        if kind == "add":
+            e = _gen(lambda: S.Add(*[c * v for c, v in zip(coef, syms)]))
+        elif kind == "mul":
+            e = _gen(lambda: S.Mul(*syms[: min(n, 65)]))
+        elif kind == "add-of-mul":
+            e = _gen(lambda: S.Add(*[c * v * syms[(i + 1) % n] for i, (c, v) in enumerate(zip(coef, syms))]))
+        else:
+            m = min(n, 40)
+            e = _gen(lambda: S.Mul(*[(v + c) for c, v in zip(coef[:m], syms[:m])]))
+        top = len(e.args) if isinstance(e, (S.Add, S.Mul)) else 0
+        ctx.mon.note(f"manyargs:top-level-operands:{'<=16' if top <= 16 else '17-32' if top <= 32 else '33-64' if top <= 64 else '>64'}")
+        ctx.describe(f"manyargs {kind} n={n} {srepr_short(e, 160)}", top > 16)
+        _roundtrip(ctx, e, f"manyargs {kind}")
         return
 
     if cls == "symbolforms":
